@@ -240,6 +240,12 @@ func parseContractFile(path string, pkgPath string, assumed bool, cs *Contracts)
 						cl.Text = strings.TrimSpace(text[1+j+2:])
 					}
 				}
+				if m := propsRe.FindStringSubmatch(cl.Text); m != nil && cl.Anchor != "" {
+					for _, p := range strings.Split(m[1], ",") {
+						cl.Props = append(cl.Props, strings.TrimSpace(p))
+					}
+					cl.Text = m[2]
+				}
 				if m := labelRe.FindStringSubmatch(cl.Text); m != nil {
 					cl.Label, cl.Text = m[1], m[2]
 				}
